@@ -331,10 +331,8 @@ class Capabilities(dict[int, Capability]):
         while data:
             key, value, data = decoder('parameter', data)
 
-            # Parameters must only be sent once.
-            if key == Parameter.AUTHENTIFICATION_INFORMATION:
-                raise Notify(2, 5)
-
+            # RFC 4271 Appendix A: the Authentication Information parameter (and subcode 5) is gone:
+            # it is an optional parameter which is not recognised like any other (subcode 4, below)
             if key == Parameter.CAPABILITIES:
                 while value:
                     capability, capv, value = _key_values('capability', value)
